@@ -25,9 +25,16 @@ import "sync"
 import "go.uber.org/zap/internal/verifhook"
 
 type lazyWithCore struct {
+	// Core is the wrapped core. It is never modified after construction, so
+	// the promoted Enabled and Sync may be called concurrently with the
+	// one-time initialization below.
 	Core
 	sync.Once
 	fields []Field
+
+	// core is Core.With(fields). It is written once, inside the Once, and
+	// only read after initOnce has returned.
+	core Core
 }
 
 // NewLazyWith wraps a Core with a "lazy" Core that will only encode fields if
@@ -42,16 +49,21 @@ func NewLazyWith(core Core, fields []Field) Core {
 func (d *lazyWithCore) initOnce() {
 	d.Once.Do(func() {
 		verifhook.Point("lazy.init.inside")
-		d.Core = d.Core.With(d.fields)
+		d.core = d.Core.With(d.fields)
 	})
 }
 
 func (d *lazyWithCore) With(fields []Field) Core {
 	d.initOnce()
-	return d.Core.With(fields)
+	return d.core.With(fields)
 }
 
 func (d *lazyWithCore) Check(e Entry, ce *CheckedEntry) *CheckedEntry {
 	d.initOnce()
-	return d.Core.Check(e, ce)
+	return d.core.Check(e, ce)
+}
+
+func (d *lazyWithCore) Write(e Entry, fields []Field) error {
+	d.initOnce()
+	return d.core.Write(e, fields)
 }
